@@ -47,3 +47,23 @@ Fixpoint bcase_mismatches (k : nat) (cs : list bcase) : list nat :=
   | [] => []
   | c :: cs' => if bcase_check c then bcase_mismatches (S k) cs' else k :: bcase_mismatches (S k) cs'
   end.
+
+(* ---------------------------------------------------------------------------------------------
+   Non-vacuity of compile_sound (BuilderR1CSProps.v) at the proved field instance F_47: a program
+   using a product, a boolean assertion, IsZero, Select and an exposed output compiles without
+   panic, and a concrete assignment satisfies every emitted row. *)
+From GnarkV Require Import Base.Fp Base.F47 Frontend.BuilderR1CSProps.
+
+Definition ex_prog : list op :=
+  [(OMul, [AV 0; AV 1]); (OAssertBool, [AV 0]); (OIsZero, [AV 2]); (OSelect, [AV 0; AV 2; AC 7%Z])].
+Definition ex_state := b_compile F47 zero47 one47 add47 mul47 sub47 opp47 inv47 eq_dec47 mk47 1 1 300 ex_prog [4%nat].
+(* wires: 0 ONE, 1 x (public), 2 out (public), 3 y (secret), 4 x*y, 5 m = IsZero(x*y), 6 hint 1/(x*y), 7 x*(x*y-7) *)
+Definition ex_w (i : nat) : F47 := mk47 (nth i [1; 1; 5; 5; 5; 0; 19; 45]%Z 0%Z).
+
+Example compile_sound_nonvacuous :
+  b_err F47 ex_state = false /\ good F47 zero47 one47 add47 mul47 ex_w ex_state /\ length (b_instrs F47 ex_state) = 7%nat.
+Proof.
+  split; [vm_compute; reflexivity|]. split; [|vm_compute; reflexivity].
+  split; [vm_compute; reflexivity|]. vm_compute b_instrs.
+  repeat (constructor; [first [exact I | apply (Fp_eq p47); vm_compute; reflexivity]|]); constructor.
+Qed.
